@@ -710,6 +710,8 @@ def run_e(prop, tier, n_st=350, n_pool=350, dfs_budget=500, long_runs=30):
         if prop == 'C04':
             sf, sr = shape_checks(ld, r, tier)
             be_fails, be_runs = sf + be_fails, be_runs + sr
+            tf, tr = thread_race_checks(ld, r, tier)
+            be_fails, be_runs = tf + be_fails, be_runs + tr
         for msg in be_fails[:5]:
             failures.append(dict(kind='schedule', summary=msg, config=dict(kind='backend'), got_from_impl=msg))
     if prop == 'C05':
@@ -1073,6 +1075,67 @@ def shape_checks(ld, r, tier):
                     got = f'raised {type(e).__name__}: {e}'[:200]
                 if got != want:
                     fails.append(f'backend {be} {how}: the state of the map function changes between the epochs of one dataset object (factor 2, 3, 5): parallel {got} vs sequential {want}')
+    return fails, runs
+
+
+def thread_race_checks(ld, r, tier):
+    """multi-worker THREAD prefetch hands the position access of one frozen copy of the pipeline to all workers at once: stages that
+    set something up on first use must not let a second worker see it half-built.  The source answers len() and ds[i] slowly when
+    it is asked from a worker thread, so that workers overlap inside the stages above it."""
+    import time, warnings, threading
+    fails, runs = [], 0
+
+    class Slow(ld.core.Dataset):
+        def __init__(self, vals): self.vals = list(vals)
+        def copy(self, freeze=False): return Slow(self.vals)
+        @property
+        def indexable(self): return True
+        @property
+        def ordered(self): return True
+        def __len__(self):
+            if threading.current_thread() is not threading.main_thread():
+                time.sleep(0.01)
+            return len(self.vals)
+        def __iter__(self, with_key=False):
+            return iter(self.vals)
+        def __getitem__(self, i):
+            import numbers
+            if isinstance(i, numbers.Integral):
+                if threading.current_thread() is not threading.main_thread():
+                    time.sleep(0.001)
+                return self.vals[i]
+            return super().__getitem__(i)
+    shapes = ['concat3', 'tile2', 'concat_nested', 'intersperse', 'zip', 'batch', 'slice', 'concat_map_cache', 'sort']
+    with warnings.catch_warnings():
+        warnings.simplefilter('ignore')
+        for shape in shapes:
+            for (w, b) in ([(2, 2), (3, 4)] if tier == 'quick' else [(2, 2), (2, 4), (3, 3), (3, 4), (4, 4)]):
+                a, bb, c = Slow([0, 1]), Slow([10, 11, 12]), Slow([20])
+                try:
+                    if shape == 'concat3': d = ld.concatenate(a, bb, c)
+                    elif shape == 'tile2': d = bb.tile(2)
+                    elif shape == 'concat_nested': d = ld.concatenate(ld.concatenate(a, bb), c)
+                    elif shape == 'intersperse': d = ld.intersperse(bb, a)
+                    elif shape == 'zip': d = ld.zip(bb, Slow([7, 8, 9]))
+                    elif shape == 'batch': d = ld.concatenate(a, bb).batch(2)
+                    elif shape == 'slice': d = ld.concatenate(a, bb, c)[::-1]
+                    elif shape == 'concat_map_cache': d = ld.concatenate(a.map(_ident_e), bb).cache()
+                    else: d = ld.concatenate(bb, a).sort(_ident_e)
+                    seq = list(d)
+                    for epoch in range(2):
+                        runs += 1
+                        common.tick()
+                        try:
+                            got = list(d.map(_ident_e).prefetch(w, b))
+                        except BaseException as e:  # noqa
+                            if isinstance(e, (KeyboardInterrupt, SystemExit)):
+                                raise
+                            got = f'raised {type(e).__name__}: {e}'[:200]
+                        if got != seq:
+                            fails.append(f'thread prefetch num_workers={w} buffer_size={b} over {shape} of slowly answering sources, epoch {epoch + 1}: {got} vs sequential {seq}')
+                            break
+                except Exception as e:
+                    fails.append(f'thread prefetch over {shape}: building raised {type(e).__name__}: {e}'[:300])
     return fails, runs
 
 
